@@ -375,7 +375,7 @@ int main(int argc, char** argv)
                     else if (cg >= 0) pair(cg, rg, "goto on nterm " + std::to_string(n));
                 }
             }
-            std::printf("TABLE %s canonical_states=%d own_states=%d own_table_is_canonical=%d %s\n", e.grammar, c->t.nstates, r->t.nstates, int(diff.empty() && c->t.nstates == r->t.nstates), diff.c_str());
+            std::printf("TABLE %s canonical_states=%d own_states=%d own_table_is_canonical=%d %s\n", e.grammar, c->t.nstates, r->t.nstates, int(diff.empty() && paired == r->t.nstates), diff.empty() && paired != c->t.nstates ? "(the canonical construction also lists states behind a shift that lost its conflict; they are unreachable)" : diff.c_str());
         }
         return 0;
     }
